@@ -254,6 +254,41 @@ def run_tlc(ctx, module, cfg=None, workers=None, env=None, timeout=600, extra=()
     return res
 
 
+# ------------------------------------------------------------------ Apalache (unbounded inductive steps)
+def run_apalache(ctx, module, steps, cinit="ConstInit", timeout=300):
+    """steps: [(init, inv, length)] - the three obligations of an inductive invariant. A counterexample is a defect of
+    the specification (Broken); a tool failure (not installed, out of memory, timeout) is recorded in the evidence as
+    'unavailable' and proves nothing - TLC's bounded run of the same module still stands."""
+    d = spec_copy(ctx)
+    out = []
+    for init, inv, length in steps:
+        od = os.path.join(ctx.wd, "apalache-%s" % uuid.uuid4().hex[:8])
+        cmd = ["apalache-mc", "check", "--cinit=" + cinit, "--init=" + init, "--inv=" + inv, "--length=%d" % length,
+               "--out-dir=" + od, module + ".tla"]
+        t0 = time.time()
+        try:
+            r = subprocess.run(["timeout", str(int(timeout))] + cmd, cwd=d, capture_output=True, text=True)
+            txt = r.stdout + r.stderr
+        except OSError as e:
+            r, txt = None, str(e)
+        finally:
+            shutil.rmtree(od, ignore_errors=True)
+        rec = {"tag": "apalache:%s:%s=>%s:len%d" % (module, init, inv, length), "cmd": " ".join(cmd), "generated": 0, "distinct": 0,
+               "depth": length, "wall_s": round(time.time() - t0, 2), "invariant_violated": None, "property_violated": False, "deadlock": False}
+        if r is not None and "The outcome is: NoError" in txt and r.returncode == 0:
+            rec["ok"] = True
+        elif r is not None and ("The outcome is: Error" in txt or "violat" in txt.lower()) and r.returncode == 12:
+            rec["ok"] = False
+            ctx.tlc_runs.append(rec)
+            raise Broken("specification error (Apalache counterexample): %s\n%s" % (rec["cmd"], txt[-3000:]))
+        else:
+            rec["ok"] = False
+            rec["unavailable"] = txt[-400:]
+        ctx.tlc_runs.append(rec)
+        out.append(rec)
+    return out
+
+
 def read_ndjson(path):
     out = []
     with open(path) as f:
